@@ -6,8 +6,8 @@
     * `chooseMethod`     = `flox.core._choose_method`
     * `chooseEngine`     = `flox.core._choose_engine`
     * `validate`         = the guards of `groupby_reduce` (core.py 2606-2893) and of `dask_groupby_agg`
-                           (core.py 1809-1818) in the order the code executes them; an `assert` that can fail is
-                           modelled as `.err .assertion`
+                           (core.py 1809-1818) in the order the code executes them; an `assert` that can fail
+                           would be modelled as `.err .assertion` (none is left in the chain)
     * `blockwiseRefused` = the check `len(pd.unique(groups_)) != groups_.size` of method="blockwise" (core.py 2945-2953)
 
   The three decision functions are proved equal to tables regenerated from the live code
@@ -212,10 +212,13 @@ def core (c : CoreCell) : Res (Option Method × Option Bool) :=
   -- labels are factorized early unless they are a dask array without expected_groups
   let expectedKnown := !c.byDask || c.expected
   let hasDask := c.arrDask || c.byDask
+  -- arg-reductions on chunked input: a single axis only (argreduce_preprocess would assert otherwise)
+  if k.isArg && hasDask && !c.ax.naxIsOne then .err .notImplemented else
   if k.isFirstLast && hasDask && !c.ax.naxIsOne then .err .valueError else
   if k.isFirstLast && !hasDask && !(c.ax.naxIsOne || c.ax.naxEqNdim) then .err .valueError else
   if c.ax.naxIsOne && c.ax.ndimGtOne && !expectedKnown then .err .notImplemented else
-  if !c.ax.naxLeNdim then .err .assertion else
+  -- more reduced axes than label dimensions: refused (formerly `assert nax <= by_.ndim`)
+  if !c.ax.naxLeNdim then .err .valueError else
   if !hasDask then .ok (none, some (r1.getD true)) else
   let callsCohorts := (!c.byDask && c.method = none) || c.method = some .cohorts
   let preferred := if callsCohorts then c.preferred else .mapReduce
